@@ -182,6 +182,7 @@ func constInt(scope *types.Scope, name string) (string, bool) {
 
 func (e *Engine) extraChecks(prop, tier string) *extraResult {
 	r := &extraResult{coverage: map[string]interface{}{}}
+	e.boundedChecks(prop, r)
 	if prop != "C17" && prop != "C04" && prop != "C03" {
 		return r
 	}
